@@ -98,6 +98,9 @@ def mk(L, mode, pad):
     return Obligation(f"sdl[L={L},{mode}]", setup, run, e2e=e2e, e2e_every=4)
 
 
+KINDS = ("float", "int", "str", "categorical", "datetime", "datetime_tz")
+
+
 def mk_quantiles(nparts, maxrows, maxout):
     """quantile-based divisions for set_index / _repartition_quantiles: non-decreasing, spanning the column's min and max.
     The sketches are NumPy float code: partition sizes, the value pattern and the target count are enumerated by the solver."""
@@ -108,9 +111,13 @@ def mk_quantiles(nparts, maxrows, maxout):
         e.assume(lambda: sizes[0] + sum(sizes[1:]) >= 1)
         order = e.pick("order", ("ascending", "descending", "zigzag", "constant"))
         nout = e.int("nout", 1, maxout)
-        return sizes, order, nout
+        kind = e.pick("dtype", KINDS)
+        # number of partitions set_index ends up with: a guess variable pinned to the observed value in run(), so that the known-finding
+        # predicate "fewer partitions than requested" can be stated over the model
+        parts = e.int("parts", 0, maxout)
+        return sizes, order, nout, kind, parts
 
-    def run(e, sizes, order, nout):
+    def run(e, sizes, order, nout, kind, parts_var):
         sizes = [operator.index(x) for x in sizes]
         nout = operator.index(nout)
         n = sum(sizes)
@@ -122,7 +129,25 @@ def mk_quantiles(nparts, maxrows, maxout):
             vals = [float((i * 7) % 11) for i in range(n)]
         else:
             vals = [5.0] * n
-        df = pd.DataFrame({"a": vals, "b": range(n)})
+        key = lambda v: v
+        if kind == "int":
+            vals = [int(v) for v in vals]
+        elif kind == "str":
+            vals = [f"k{int(v):03d}" for v in vals]
+        elif kind == "categorical":
+            # ordered categorical with FEW levels in a custom (non-lexical) order: fewer distinct values than partitions is the rule
+            levels = ["low", "mid", "high"]
+            vals = [levels[int(v) % 3] for v in vals]
+            key = levels.index
+        elif kind in ("datetime", "datetime_tz"):
+            base = pd.Timestamp("2021-03-01 02:35:44")
+            vals = [base + pd.Timedelta(minutes=37 * int(v)) for v in vals]
+            if kind == "datetime_tz":
+                vals = [v.tz_localize("US/Eastern") for v in vals]
+        if kind == "categorical":
+            df = pd.DataFrame({"a": pd.Categorical(vals, categories=levels, ordered=True), "b": range(n)})
+        else:
+            df = pd.DataFrame({"a": vals, "b": range(n)})
         # partitions of exactly the given sizes (empty ones included)
         parts, pos = [], 0
         for sz in sizes:
@@ -132,27 +157,38 @@ def mk_quantiles(nparts, maxrows, maxout):
         ddf = dd.from_delayed([dask.delayed(p) for p in parts], meta=df.iloc[:0], verify_meta=False)
         q = ddf.a._repartition_quantiles(nout).compute(scheduler="sync")
         qs = list(q)
+        obs = [str(x) for x in qs]
         for x, y in zip(qs, qs[1:]):
-            e.check(x <= y, f"quantile divisions not non-decreasing: {qs}")
-        e.check(qs[0] == min(vals) and qs[-1] == max(vals), f"quantile divisions {qs} do not span the data's min/max [{min(vals)}, {max(vals)}] (partition sizes {sizes})")
+            e.check(key(x) <= key(y), f"quantile divisions not non-decreasing: {qs}")
+        lo, hi = min(vals, key=key), max(vals, key=key)
+        e.check(qs[0] == lo and qs[-1] == hi, f"quantile divisions {qs} do not span the data's min/max [{lo}, {hi}] (partition sizes {sizes}, dtype {kind})")
         if len(set(vals)) < 2:
-            return [float(x) for x in qs]       # set_index on a single distinct key is outside this property (shuffle plumbing, C40)
+            e.assume(lambda: parts_var == 0)
+            return obs       # set_index on a single distinct key is outside this property (shuffle plumbing, C40)
         out = ddf.set_index("a", npartitions=nout)
         d = out.divisions
         if d[0] is None:
-            return [float(x) for x in qs]       # unknown divisions: nothing is reported, nothing to be untruthful about
-        e.check(list(d) == sorted(d), f"set_index divisions not sorted: {d}")
-        got = out.compute(scheduler="sync")
-        e.check(sorted(got.index.tolist()) == sorted(vals) and sorted(got.b.tolist()) == list(range(n)), "set_index changed the multiset of rows")
+            e.assume(lambda: parts_var == 0)
+            return obs       # unknown divisions: nothing is reported, nothing to be untruthful about
+        nparts = len(d) - 1
+        e.assume(lambda: parts_var == nparts)
+        e.check(list(d) == sorted(d, key=key), f"set_index divisions not sorted: {d}")
+        try:
+            got = out.compute(scheduler="sync")
+        except AssertionError:
+            e.check(False, f"set_index('a', npartitions={nout}) raised AssertionError at compute time: divisions {d} describe {nparts} partition(s) "
+                           f"but .npartitions reports {out.npartitions} (partition sizes {sizes}, dtype {kind})")
+            raise
+        e.check(sorted(got.index.tolist(), key=key) == sorted(vals, key=key) and sorted(got.b.tolist()) == list(range(n)), "set_index changed the multiset of rows")
         import dask as _d
         frames = _d.compute(*out.to_delayed(), scheduler="sync")
         m = len(frames)
         e.check(m == len(d) - 1, "npartitions != len(divisions)-1")
         for i, fr in enumerate(frames):
             for x in fr.index:
-                ok = (d[i] <= x <= d[i + 1]) if i == m - 1 else (d[i] <= x < d[i + 1])
-                e.check(ok, f"set_index: partition {i} of divisions {d} holds index {x} (partition sizes {sizes}, values {order})")
-        return [float(x) for x in qs]
+                ok = (key(d[i]) <= key(x) <= key(d[i + 1])) if i == m - 1 else (key(d[i]) <= key(x) < key(d[i + 1]))
+                e.check(ok, f"set_index: partition {i} of divisions {d} holds index {x} (partition sizes {sizes}, values {order}, dtype {kind})")
+        return obs
 
     return Obligation(f"quantile_divisions[parts={nparts},rows<={maxrows},nout<={maxout}]", setup, run)
 
